@@ -763,6 +763,35 @@ class TransferWorld:
         return ev
 
 
+def relink(world, d, symbolic):
+    """a second `drf ln` into destination d, which already holds links to the world's source, from ANOTHER source tree that has
+    the same relative paths and other contents (a second receiver recorded with the same settings): whatever the command does
+    with the destination, the first source - which it was not even given - keeps its bytes"""
+    from digital_rf import drf_command
+
+    src2 = os.path.join(world.base, "src_other%d" % d)
+    for rel in world.snap:
+        p2 = os.path.join(src2, rel)
+        os.makedirs(os.path.dirname(p2), exist_ok=True)
+        with open(p2, "wb") as fh:
+            fh.write(("other receiver %s" % rel).encode())
+    raised, exc = False, None
+    try:
+        drf_command.main(["ln", src2, world.dst(d)] + (["--symbolic"] if symbolic else []))
+    except SystemExit as ex:
+        raised = bool(ex.code)
+    except Exception as ex:  # noqa: BLE001
+        raised, exc = True, "%s: %s" % (type(ex).__name__, ex)
+    s1 = snapshot(world.src)
+    changed = sorted(world.rel2id.get(r, 0) for r in world.snap if r not in s1 or s1[r][0] != world.snap[r][0])
+    world.snap = s1
+    shutil.rmtree(src2, ignore_errors=True)
+    ev = dict(ev="relink", d=d, sym=bool(symbolic), raised=raised, src_changed=changed)
+    if exc:
+        ev["exc"] = exc[:160]
+    return ev
+
+
 # ---- real recordings for the reader comparison of C18 -----------------------------------------------------------
 RATE = 10          # samples per second of the recorded RF and metadata channels
 FILE_MS = 2000
